@@ -7,7 +7,7 @@ Import ListNotations.
 
 (* a script that may follow a moment at which its thread holds nr read locks and (w) the write lock, and that ends
    holding nothing: never locks against itself (no Lock/RLock under its own write lock, no Lock under its own read
-   lock; nested RLocks are fine - a StarvingMutex admits readers while no writer is ACTIVE), only unlocks what it holds *)
+   lock; nested RLocks are fine - a StarvingMutex lets readers in while no writer is ACTIVE), only unlocks what it holds *)
 Fixpoint bal (nr : nat) (w : bool) (l : list act) : bool :=
   match l with
   | [] => (nr =? 0) && negb w
